@@ -331,6 +331,9 @@ func (m *Manager) AssignAddress(ctx context.Context, sessionID string, ipv4PoolI
 			)
 		} else {
 			m.mu.Lock()
+			if session.IPv6 != nil && (ip == nil || !session.IPv6.Equal(ip)) {
+				delete(m.byIP, session.IPv6.String()) // address changed: drop the old index entry
+			}
 			session.IPv6 = ip
 			session.IPv6Prefix = prefix
 			if ip != nil {
